@@ -86,13 +86,13 @@ class C04(Prop):
     technique = 'Lean 4 proof (well-founded induction on the buffer, decoder-parametric) + differential correspondence with FrameParser / TransportTCP'
     level_text = ('c04_chunking_independent, c04_any_two_chunkings, c04_frames_exact(_chunked), c04_truncated_tail, c04_message_mode are kernel-checked for every '
                   'per-frame decoder, every frame sequence and every partition into reads; the model is a transcription of FrameParser.receive_data and is run '
-                  'against the real parser (stub decoder on both sides) and against TransportTCP with the real decoder.')
+                  'against the real parser (stub decoder on both sides) and against TransportTCP, TransportAioHttpWebsocket and the QUIC transport with the real decoder.')
     level_note = ('Trusted: Lean kernel + standard axioms; model fidelity as far as the correspondence reaches; asyncio.StreamReader.read semantics; '
                   'bytearray slicing = List.take/drop.')
     design_ref = '§5 C04'
     rule = ('sequences of correctly delimited frames (valid, undecodable, ignored, zero-length) plus optional truncated/garbage tail, cut into reads by '
             'five chunking styles (single bytes, whole, one cut, cuts inside every prefix, random); byte-stream mode through FrameParser and through '
-            'TransportTCP.next_frame_generator with varying read sizes; message mode incl. the empty message, and whole messages through a real message transport (TransportAioHttpWebsocket fed by a fake websocket, frames pulled through AbstractMessagingTransport.next_frame_generator); non-trivial = at least two frames and at least '
+            'TransportTCP.next_frame_generator with varying read sizes; message mode incl. the empty message, and whole messages through a real message transport (TransportAioHttpWebsocket fed by a fake websocket, frames pulled through AbstractMessagingTransport.next_frame_generator); the QUIC transport (RSocketQuicProtocol + RSocketQuicTransport driven with StreamDataReceived events for the chunks and a final ConnectionTerminated, the listener task scheduled between all / none / all but the last two / random events); non-trivial = at least two frames and at least '
             'one cut strictly inside a frame or its prefix (stream mode), or a message-mode case; distinct = distinct (bytes, chunking)')
     assumptions = ['the per-frame decoder is a parameter of the theorem; with the stub decoder the harness replaces rsocket.frame_parser.parse_or_ignore']
 
@@ -100,7 +100,7 @@ class C04(Prop):
         out = []
         n = 2500 if tier == 'quick' else 80000
         for i in range(n):
-            kind = rng.choice(['stub', 'stub', 'stub', 'real', 'tcp', 'msg', 'wsmsg'])
+            kind = rng.choice(['stub', 'stub', 'stub', 'real', 'tcp', 'msg', 'wsmsg', 'quic'])
             if kind == 'stub':
                 bodies = []
                 for _ in range(rng.randint(0, 7)):
@@ -110,7 +110,7 @@ class C04(Prop):
                 data = b''.join(len(b).to_bytes(3, 'big') + b for b in bodies) + tail
                 pts, style = rand_chunking(rng, len(data))
                 out.append({'kind': 'stub', 'bodies': [b.hex() for b in bodies], 'tail': tail.hex(), 'cuts': pts, 'style': style})
-            elif kind in ('real', 'tcp', 'wsmsg'):
+            elif kind in ('real', 'tcp', 'wsmsg', 'quic'):
                 specs = [FR.gen_spec(rng) for _ in range(rng.randint(1, 6))]
                 junk = rng.choice(['', '', 'ee', '0000000000ff', '00000001' + 'ff' * 4])  # undecodable but delimited bodies
                 c_undec = junk in ('ee', '0000000000ff')      # shorter than a header / unknown frame type
@@ -128,6 +128,11 @@ class C04(Prop):
                     c['seed'] = rng.getrandbits(32)
                 elif kind == 'wsmsg':
                     pass
+                elif kind == 'quic':
+                    # the QUIC transport: stream chunks arrive as events; the listener task may or may not get to run between two of them, and
+                    # the termination event may arrive in the same loop iteration as the last chunks (one datagram carrying both)
+                    c['seed'] = rng.getrandbits(32)
+                    c['schedule'] = rng.choice(['spaced', 'batched', 'tail-batched', 'random'])
                 else:
                     c['read'] = rng.choice([1, 2, 3, 4, 7, 64, 1024])
                 out.append(c)
@@ -244,6 +249,52 @@ class C04(Prop):
                 return items, t._incoming_frame_queue.empty()
             items, ok = lp.run_until_complete(asyncio.wait_for(go_ws(), 5))
             return {'expected': expected, 'valid_only': valid_only, 'runs': {'websocket-messages': {'items': items, 'residual': '', 'terminated': ok}}, 'nbytes': len(data)}
+        if kind == 'quic':
+            import random
+            from aioquic.quic.configuration import QuicConfiguration
+            from aioquic.quic.connection import QuicConnection
+            from aioquic.quic.events import StreamDataReceived, ConnectionTerminated
+            from rsocket.transports.aioquic_transport import RSocketQuicProtocol, RSocketQuicTransport
+            r = random.Random(case['seed'])
+            pts, style = rand_chunking(r, len(data))
+            chunks = [c for c in cut(data, pts) if c]
+
+            async def go_quic():
+                protocol = RSocketQuicProtocol(QuicConnection(configuration=QuicConfiguration(is_client=True)))
+                protocol._connected = True               # as after the handshake
+                protocol._transmit_soon = lambda: None   # no UDP socket behind this connection
+                t = RSocketQuicTransport(protocol)
+
+                async def breathe():
+                    for _ in range(5):
+                        await asyncio.sleep(0)
+                await breathe()
+                events = [StreamDataReceived(data=c, end_stream=False, stream_id=0) for c in chunks]
+                events.append(ConnectionTerminated(error_code=0, frame_type=None, reason_phrase='bye'))
+                sched = case['schedule']
+                for i, ev in enumerate(events):
+                    protocol.quic_event_received(ev)
+                    if sched == 'spaced' or (sched == 'tail-batched' and i < len(events) - 2) or (sched == 'random' and r.random() < 0.5):
+                        await breathe()
+                items = []
+                try:
+                    for _ in range(len(data) + 3):
+                        g = await asyncio.wait_for(t.next_frame_generator(), 2)
+                        if g is None:
+                            return items, True
+                        async for fr in g:
+                            items.append(FR.dump(fr))
+                    return items, False
+                except asyncio.TimeoutError:
+                    return items, False
+                except Exception as e:
+                    # the termination is reported after every frame the bytes contained
+                    return items, True
+                finally:
+                    t._listener.cancel()
+            items, ok = lp.run_until_complete(go_quic())
+            return {'expected': expected, 'valid_only': valid_only, 'runs': {'quic %s %s:%s' % (case['schedule'], style, ','.join(map(str, pts[:40]))): {'items': items, 'residual': '', 'terminated': ok}},
+                    'nbytes': len(data)}
         # tcp
         from rsocket.transports.tcp import TransportTCP
 
@@ -281,7 +332,7 @@ class C04(Prop):
             return ['drain - ' + ' '.join(c or '-' for c in obs['chunks'])]
         if case['kind'] == 'msg' and not case['real']:
             return ['msg ' + (case['msg'] or '-')]
-        if case['kind'] in ('real', 'tcp', 'wsmsg'):
+        if case['kind'] in ('real', 'tcp', 'wsmsg', 'quic'):
             # the per-frame decoder of the composition C04 ∘ C02: the codec model decides what each delimited body is
             return ['dec ' + (b.hex() or '-') for b in self._wire(case)[0]]
         return []
@@ -289,7 +340,7 @@ class C04(Prop):
     def compare(self, case, obs, answers):
         if not answers:
             return None
-        if case['kind'] in ('real', 'tcp', 'wsmsg'):
+        if case['kind'] in ('real', 'tcp', 'wsmsg', 'quic'):
             if any(a.startswith('OUT-OF-DOMAIN') or a == 'OOD' for a in answers):
                 return None
             want = [a for a in answers if a != 'IGNORED']
@@ -367,7 +418,7 @@ class C04(Prop):
         if k == 'msg':
             return json.dumps(['msg', case['msg'], case['real']])
         if len(case['specs']) >= 2:
-            return json.dumps([k, case['specs'], case['junk'], case['junk_pos'], case.get('seed'), case.get('read')], sort_keys=True)
+            return json.dumps([k, case['specs'], case['junk'], case['junk_pos'], case.get('seed'), case.get('read'), case.get('schedule')], sort_keys=True)
         return None
 
     def stats(self, case, obs):
